@@ -59,6 +59,23 @@ SetHome == Can("setArbitraryHome") /\ \E n \in Tools, th \in Thetas \cup {0} :
 Restore == Can("restoreOriginalEE") /\ tool' = Orig /\ UNCHANGED <<base, joint>> /\ Log([op |-> "restoreOriginalEE"])
 RandomPos == Can("randomPos") /\ joint' = Free /\ UNCHANGED <<base, tool>> /\ Log([op |-> "randomPos"])
 
+(* ---------------- C07: what an IK call owes, as a predicate over the projected observation e ----------------
+   e.ok      the reported success flag
+   e.ang     rotation angle of inv(FK(returned vector)) * goal, in units of rot_tol / 1000
+   e.pos     position error in units of pos_tol / 1000 - the SMALLEST of |dp|, |v_body|, |v_space|
+             (the weakest reading of "within the position tolerance")
+   e.inlim   returned vector inside the joint limits        e.stateis  the arm's state is that solution
+   e.coh     reported tool pose = pose of the stored joint vector
+   e.g       goal class: "reach" / "boundary" / "beyond"     e.s  start class: "near" / "far" / "random"
+   e.wellcond  solution >= 0.15 rad inside the limits and smallest Jacobian singular value >= 0.05    *)
+IKPost(e) ==
+    /\ e.ok = 1 => /\ e.ang <= 1000 /\ e.pos <= 1000               \* never claims a pose it has not reached
+                   /\ (e.path = "constrained" => e.inlim = 1)      \* limit-respecting solver stays inside the limits
+                   /\ e.stateis = 1                                \* and the arm's state is that solution
+                   /\ e.g # "beyond"                               \* an unreachable goal is never reported reached
+    /\ e.ok = 0 => e.coh = 1                                       \* failure leaves a coherent state
+    /\ (e.s = "near" /\ e.wellcond = 1 /\ e.g = "reach" /\ e.path # "IKFree") => e.ok = 1   \* local convergence
+
 Next == FK \/ Query \/ IK \/ Move \/ SetHome \/ Restore \/ RandomPos
 Spec == Init /\ [][Next]_vars
 
